@@ -129,3 +129,18 @@ def merge_axis_lines(conts):
                     changed = True; break
         if segs: out.append((closed, segs))
     return rotate_canonical(out)
+
+def fill_canon(calls):
+    """canonical form modulo the fill-preserving rewrites of the CFF specialiser: zero-length segments dropped, a cubic
+    whose first and last control vectors are zero is the line between its end points, consecutive axis-parallel lines merged"""
+    conts = contours(calls)
+    out = []
+    for c in conts:
+        if c[0] == "component": out.append(c); continue
+        closed, segs = c
+        ns = []
+        for s_ in segs:
+            if s_[0] == "C" and s_[1] == s_[2] and s_[3] == s_[4]: s_ = ("L", s_[1], s_[4])
+            ns.append(s_)
+        out.append((closed, ns))
+    return merge_axis_lines(drop_degenerate(out))
